@@ -8,6 +8,22 @@ VERIF = os.path.dirname(os.path.abspath(__file__))
 
 # id -> (level category, engine, technique, level text, level note, design ref)
 CHECKS = {
+    "C01": ("exploration", "E-ENV",
+            "stateless exhaustive exploration of Read/Write answer tapes (deviation-bounded) on the real encrypt/decrypt loops",
+            "Every partition of every plaintext length 0..3*cs+1 into reads (exhaustive, chunk sizes 1..4/5 through the hooked loops) "
+            "and every short-read/short-write schedule within the stated budgets at production size through key_encrypt/key_decrypt "
+            "is executed; each execution must round-trip exactly and name the sender. Exploration level: the schedule space is "
+            "enumerated completely within its bounds, data values are not.",
+            "Keys/plaintext bytes from seed-derived alphabets; lengths beyond 3*cs+1 by the periodicity argument in DESIGN.md; REF (OpenSSL) is used as a cross-check reader.",
+            "DESIGN.md §6 C01"),
+    "C10": ("fault_enumeration", "E-ENV",
+            "exhaustive fault injection: every fault kind at every read/write/flush call index, on top of bounded short-I/O schedules; CLI-level real I/O failures",
+            "For every explored run and every call index k, each fault (Interrupted/Other on read, Ok(0)/Interrupted/Other on write, "
+            "Interrupted/Other on flush) is injected at k; the result must be the error of the failing side (or success after a retried "
+            "interruption with complete output), never a panic, and the bytes written must be a prefix of the fault-free continuation, "
+            "which is actually executed. Supplemented by real I/O failures through the CLI (/dev/full, closed pipe, missing directory, directory as input).",
+            "At most one hard fault per execution; data values from seed-derived alphabets; CLI cases use the real CSPRNG so only verdicts (not bytes) are compared.",
+            "DESIGN.md §6 C10"),
     "C19": ("exploration", "E-GRID",
             "exhaustive enumeration of input-shape grids against an OpenSSL reference model",
             "Every point of the stated length/shape grids (AEAD 0..130 x 0..40, every single-bit alteration, all short inputs, "
